@@ -33,6 +33,15 @@ def build(flavour, kind):
         def m(ctx, a):
             return a
         d.add(m, 'm', context='ctx')
+    elif flavour == 'func0':
+        # parameterless methods: one takes the context, its sibling (same empty client signature) does not
+        def m(ctx):
+            return 5 if isinstance(ctx, Ctx) else -1
+
+        def pong():
+            return 5
+        d.add(m, 'm', context='ctx')
+        d.add(pong, 'pong')
     elif flavour in ('view', 'view_ctx'):
         class V(ViewMixin):
             def __init__(self, context=None):
@@ -68,13 +77,17 @@ def build(flavour, kind):
 def run(scn, loop):
     d = build(scn['flavour'], scn['kind'])
     text = json.dumps({'jsonrpc': '2.0', 'id': 1, 'method': 'm', 'params': [5]})
+    if scn['flavour'] == 'func0':
+        text = json.dumps([{'jsonrpc': '2.0', 'id': 1, 'method': 'm'}, {'jsonrpc': '2.0', 'id': 2, 'method': 'pong'}])
     prev = None
     Ctx.alive = 0
     ev = []
     for i in range(scn['n']):
         ctx = Ctx()
         ret = loop.run_until_complete(d.dispatch(text, context=ctx)) if scn['kind'] == 'async' else d.dispatch(text, context=ctx)
-        ok = ret is not None and json.loads(ret[0]).get('result') == 5
+        doc = json.loads(ret[0]) if ret is not None else None
+        ok = doc is not None and all(x.get('result') == 5 for x in (doc if isinstance(doc, list) else [doc]))
+        del doc
         del ctx, ret
         gc.collect()
         alive = Ctx.alive
